@@ -376,7 +376,13 @@ def _case_derivatives(p, ctx):
         if p["final"] == "new_point":
             x2 = {n: values[n] + np.array(p["delta"][n], dtype=float) for n in model.x_names}
             sol2 = model.solve(x2)
-            jac = mda.linearize(x2)
+            try:
+                jac = mda.linearize(x2)
+            except ValueError as exc:
+                if lu_with_operator and "LU" in str(exc):
+                    ctx.cls("rejected_lu_with_linear_operator")  # documented (an inner MDA reached only now)
+                    return
+                raise
             compare(ctx, p, model, tag, jac, model.total_derivatives(x2, sol2), req_in, req_out, "new point")
             ctx.cls("final:new_point")
         elif p["final"] == "all_pairs":
@@ -388,7 +394,13 @@ def _case_derivatives(p, ctx):
                 return
             mda.add_differentiated_inputs(req_in)
             mda.add_differentiated_outputs(req_out)
-            jac = mda.linearize(x1)
+            try:
+                jac = mda.linearize(x1)
+            except ValueError as exc:
+                if lu_with_operator and "LU" in str(exc):
+                    ctx.cls("rejected_lu_with_linear_operator")  # documented (an inner MDA reached only now)
+                    return
+                raise
             compare(ctx, p, model, tag, jac, exp1, req_in, req_out, "all pairs")
             ctx.cls("final:all_pairs")
     except _KrylovBreakdown:
